@@ -7,6 +7,7 @@ import itertools
 import re
 import string
 import textwrap
+import unicodedata
 from pathlib import Path
 from typing import Collection, Iterable, List, Literal, Mapping, Sequence, Tuple
 
@@ -81,13 +82,14 @@ def _get_func_name_start_end(
 ) -> Tuple[int, int]:
     start, end = core.get_charnos(node, source)
     codeblock = source[start:end]
-    for match in re.finditer(_get_variable_re_pattern(node.name), codeblock):
-        if match.group() == node.name:
-            end = start + match.end()
-            start += match.start()
-            return start, end
+    # The name is what follows the first def or class at the start of a line, after the decorators.
+    # The tree has the normalised name, the text may spell it in another way, with a ligature say.
+    definition = r"(?<![^\n])[ \t]*(?:async[ \t]+)?(?:def|class)[ \t]+([^\W\d]\w*)"
+    for match in re.finditer(definition, codeblock):
+        if unicodedata.normalize("NFKC", match.group(1)) == node.name:
+            return start + match.start(1), start + match.end(1)
 
-    raise RuntimeError(f"Cannot find {node.name} in code block:\n{codeblock}")
+    raise RuntimeError(f"No definition of {node.name} in code block:\n{codeblock}")
 
 
 def _names_never_substituted(ast_tree: ast.Module) -> Collection[str]:
